@@ -203,4 +203,762 @@ Proof.
   - intros; apply H.
 Qed.
 
+
+(* ---- rows, entries and the elementary row operations -------------------------------- *)
+
+Lemma wf_row_length : forall r c (M : @matrix F) k, wf_matrix r c M -> k < r -> length (row k M) = c.
+Proof.
+  intros r c M k [HL HF] Hk. unfold row. rewrite Forall_forall in HF. apply HF. apply nth_In. lia.
+Qed.
+
+Lemma row_overflow : forall (M : @matrix F) k, length M <= k -> row k M = [].
+Proof. intros. unfold row. now apply nth_overflow. Qed.
+
+Lemma entry_row : forall (M : @matrix F) k j, entry K k j M = nth j (row k M) 0.
+Proof. reflexivity. Qed.
+
+Lemma wf_upd : forall r c (M : @matrix F) i x, wf_matrix r c M -> length x = c -> wf_matrix r c (upd i x M).
+Proof.
+  intros r c M i x [HL HF] Hx. split; [now rewrite upd_length|].
+  clear HL. revert i. induction HF as [|h t Hh Ht IH]; intros [|i]; cbn [upd]; constructor; auto.
+Qed.
+
+(* swap *)
+Definition swap_idx (a b k : nat) : nat := if Nat.eqb k a then b else if Nat.eqb k b then a else k.
+
+Lemma row_swap_rows : forall (M : @matrix F) a b k, a < length M -> b < length M ->
+  row k (swap_rows a b M) = row (swap_idx a b k) M.
+Proof.
+  intros M a b k Ha Hb. unfold swap_rows, row, swap_idx.
+  rewrite nth_upd, upd_length. apply Nat.ltb_lt in Ha as Ha'. rewrite Ha'.
+  destruct (Nat.eqb k a) eqn:E1; [reflexivity|].
+  rewrite nth_upd. apply Nat.ltb_lt in Hb as Hb'. rewrite Hb'. destruct (Nat.eqb k b); reflexivity.
+Qed.
+
+Lemma wf_swap_rows : forall r c (M : @matrix F) a b, wf_matrix r c M -> a < r -> b < r ->
+  wf_matrix r c (swap_rows a b M).
+Proof.
+  intros r c M a b H Ha Hb. unfold swap_rows.
+  apply wf_upd; [apply wf_upd; auto|]; eapply wf_row_length; eauto.
+Qed.
+
+(* scale *)
+Lemma row_scale_row : forall (M : @matrix F) a c k,
+  row k (scale_row K a c M) = if Nat.eqb k a then vscale K c (row k M) else row k M.
+Proof.
+  intros M a c k. unfold scale_row, row. rewrite nth_upd.
+  destruct (Nat.eqb k a) eqn:E; [|reflexivity].
+  apply Nat.eqb_eq in E; subst k.
+  destruct (Nat.ltb a (length M)) eqn:E2; [reflexivity|].
+  apply Nat.ltb_ge in E2. rewrite (nth_overflow M) by lia. reflexivity.
+Qed.
+
+Lemma wf_scale_row : forall r c (M : @matrix F) a x, wf_matrix r c M -> wf_matrix r c (scale_row K a x M).
+Proof.
+  intros r c M a x H. destruct (Nat.ltb a r) eqn:E.
+  - apply Nat.ltb_lt in E. unfold scale_row. apply wf_upd; auto.
+    unfold vscale. rewrite map_length. eapply wf_row_length; eauto.
+  - apply Nat.ltb_ge in E. unfold scale_row.
+    replace (upd a (vscale K x (row a M)) M) with M; auto.
+    destruct H as [HL _]. clear -HL E. revert a r HL E.
+    induction M as [|h t IH]; intros [|a] r HL E; cbn [upd]; auto.
+    + cbn in HL. lia.
+    + f_equal. cbn in HL. apply (IH a (pred r)); lia.
+Qed.
+
+(* eliminate *)
+Lemma row_eliminate_by : forall (M : @matrix F) fs p k, k < length M ->
+  row k (eliminate_by K fs p M) =
+  if Nat.eqb k p then row k M
+  else if fis0 K (nth k fs 0) then row k M else vsubmul K (nth k fs 0) (row p M) (row k M).
+Proof.
+  intros M fs p k Hk. unfold eliminate_by, row.
+  rewrite (nth_mapi _ M k [] []) by auto. reflexivity.
+Qed.
+
+Lemma eliminate_by_length : forall (M : @matrix F) fs p, length (eliminate_by K fs p M) = length M.
+Proof. intros. unfold eliminate_by. apply mapi_length. Qed.
+
+Lemma row_eliminate_by_overflow : forall (M : @matrix F) fs p k, length M <= k ->
+  row k (eliminate_by K fs p M) = [].
+Proof. intros. apply row_overflow. now rewrite eliminate_by_length. Qed.
+
+Lemma wf_eliminate_by : forall r c (M : @matrix F) fs p, wf_matrix r c M -> p < r ->
+  wf_matrix r c (eliminate_by K fs p M).
+Proof.
+  intros r c M fs p H Hp. pose proof H as [HL HF]. split; [now rewrite eliminate_by_length|].
+  apply Forall_forall. intros x Hx.
+  destruct (In_nth _ _ [] Hx) as [k [Hk Hnth]]. rewrite eliminate_by_length in Hk.
+  fold (row k (eliminate_by K fs p M)) in Hnth. rewrite row_eliminate_by in Hnth by auto.
+  subst x. assert (Hrk : length (row k M) = c) by (eapply wf_row_length; eauto; lia).
+  destruct (Nat.eqb k p); auto. destruct (fis0 K _); auto.
+  rewrite vsubmul_length; auto. rewrite Hrk. eapply wf_row_length; eauto.
+Qed.
+
+(* the value of [dot (row k M') v] after each operation *)
+Lemma dot_row_eliminate_by : forall r c (M : @matrix F) fs p k v, wf_matrix r c M -> p < r -> k < r ->
+  dot K (row k (eliminate_by K fs p M)) v =
+  if Nat.eqb k p then dot K (row k M) v else dot K (row k M) v - nth k fs 0 * dot K (row p M) v.
+Proof.
+  intros r c M fs p k v H Hp Hk. pose proof H as [HL _].
+  rewrite row_eliminate_by by lia. destruct (Nat.eqb k p); auto.
+  destruct (fis0 K (nth k fs 0)) eqn:E.
+  - apply fis0_true in E. rewrite E. ring.
+  - apply dot_vsubmul_l. rewrite (wf_row_length r c M p), (wf_row_length r c M k); auto.
+Qed.
+
+Lemma entry_eliminate_by : forall r c (M : @matrix F) fs p k j, wf_matrix r c M -> p < r -> k < r ->
+  entry K k j (eliminate_by K fs p M) =
+  if Nat.eqb k p then entry K k j M else entry K k j M - nth k fs 0 * entry K p j M.
+Proof.
+  intros r c M fs p k j H Hp Hk. pose proof H as [HL _].
+  rewrite !entry_row, row_eliminate_by by lia. destruct (Nat.eqb k p); auto.
+  destruct (fis0 K (nth k fs 0)) eqn:E.
+  - apply fis0_true in E. rewrite E. ring.
+  - apply nth_vsubmul. rewrite (wf_row_length r c M p), (wf_row_length r c M k); auto.
+Qed.
+
+Lemma entry_scale_row : forall (M : @matrix F) a x k j,
+  entry K k j (scale_row K a x M) = if Nat.eqb k a then entry K k j M * x else entry K k j M.
+Proof.
+  intros. rewrite !entry_row, row_scale_row. destruct (Nat.eqb k a); auto. apply nth_vscale.
+Qed.
+
+Lemma entry_swap_rows : forall (M : @matrix F) a b k j, a < length M -> b < length M ->
+  entry K k j (swap_rows a b M) = entry K (swap_idx a b k) j M.
+Proof. intros. rewrite !entry_row, row_swap_rows; auto. Qed.
+
+Lemma entry_overflow : forall (M : @matrix F) k j, length M <= k -> entry K k j M = 0.
+Proof. intros. rewrite entry_row, row_overflow by auto. destruct j; reflexivity. Qed.
+
+Lemma nth_col : forall (M : @matrix F) j k, nth k (col K j M) 0 = entry K k j M.
+Proof.
+  intros M j k. unfold col, entry.
+  destruct (Nat.ltb k (length M)) eqn:E.
+  - apply Nat.ltb_lt in E. rewrite (nth_indep _ 0 (nth j [] 0)) by (rewrite map_length; auto).
+    rewrite (map_nth (fun r => nth j r 0) M [] k). reflexivity.
+  - apply Nat.ltb_ge in E. rewrite nth_overflow by (rewrite map_length; auto).
+    rewrite (nth_overflow M) by auto. destruct j; reflexivity.
+Qed.
+
+Lemma col_length : forall (M : @matrix F) j, length (col K j M) = length M.
+Proof. intros. unfold col. apply map_length. Qed.
+
+(* ---- kernel: [ker M v] = every row of M is orthogonal to v ----------------------------- *)
+
+Definition ker (M : @matrix F) (v : list F) : Prop := forall k, dot K (row k M) v = 0.
+
+Lemma ker_swap_rows : forall (M : @matrix F) a b v, a < length M -> b < length M ->
+  (ker (swap_rows a b M) v <-> ker M v).
+Proof.
+  intros M a b v Ha Hb. unfold ker. split; intros H k.
+  - specialize (H (swap_idx a b k)). rewrite row_swap_rows in H by auto.
+    replace (swap_idx a b (swap_idx a b k)) with k in H; auto.
+    unfold swap_idx.
+    destruct (Nat.eqb k a) eqn:E1; destruct (Nat.eqb k b) eqn:E2;
+      repeat (rewrite ?Nat.eqb_refl; try match goal with
+              | H : Nat.eqb _ _ = true |- _ => apply Nat.eqb_eq in H; subst
+              end); auto.
+    + destruct (Nat.eqb b a) eqn:E3; auto. apply Nat.eqb_eq in E3; auto.
+    + rewrite E1, E2. reflexivity.
+  - rewrite row_swap_rows by auto. apply H.
+Qed.
+
+Lemma ker_scale_row : forall (M : @matrix F) a x v, x <> 0 ->
+  (ker (scale_row K a x M) v <-> ker M v).
+Proof.
+  intros M a x v Hx. unfold ker. split; intros H k; specialize (H k); rewrite row_scale_row in *.
+  - destruct (Nat.eqb k a); auto. rewrite dot_vscale_l in H.
+    apply fmul_eq_0 in H. destruct H; [auto|contradiction].
+  - destruct (Nat.eqb k a); auto. rewrite dot_vscale_l, H. ring.
+Qed.
+
+Lemma ker_eliminate_by : forall r c (M : @matrix F) fs p v, wf_matrix r c M -> p < r ->
+  (ker (eliminate_by K fs p M) v <-> ker M v).
+Proof.
+  intros r c M fs p v HW Hp. pose proof HW as [HL _]. unfold ker. split; intros H k.
+  - destruct (Nat.ltb k r) eqn:E.
+    + apply Nat.ltb_lt in E.
+      pose proof (H p) as Hpp. rewrite (dot_row_eliminate_by r c) in Hpp by auto.
+      rewrite Nat.eqb_refl in Hpp.
+      specialize (H k). rewrite (dot_row_eliminate_by r c) in H by auto.
+      destruct (Nat.eqb k p) eqn:E2; auto. rewrite Hpp in H.
+      rewrite <- H. ring.
+    + apply Nat.ltb_ge in E. rewrite row_overflow by lia. apply dot_nil_l.
+  - destruct (Nat.ltb k r) eqn:E.
+    + apply Nat.ltb_lt in E. rewrite (dot_row_eliminate_by r c) by auto.
+      destruct (Nat.eqb k p); auto. rewrite (H k), (H p). ring.
+    + apply Nat.ltb_ge in E. rewrite row_eliminate_by_overflow by lia. apply dot_nil_l.
+Qed.
+
+
+(* ---- pivot search ---------------------------------------------------------------------- *)
+
+Lemma nth_skipn_add : forall {A} (l : list A) n i d, nth i (skipn n l) d = nth (n + i)%nat l d.
+Proof.
+  intros A l; induction l as [|h t IH]; intros n i d.
+  - rewrite skipn_nil. destruct i; destruct (n + _)%nat; reflexivity.
+  - destruct n; cbn [skipn Nat.add]; auto. cbn [nth]. apply IH.
+Qed.
+
+Lemma find_pivot_spec : forall pc rows start,
+  match find_pivot K pc start rows with
+  | None => forall i, nth pc (nth i rows []) 0 = 0
+  | Some p => start <= p /\ p < (start + length rows)%nat /\ nth pc (nth (p - start) rows []) 0 <> 0
+  end.
+Proof.
+  intros pc rows; induction rows as [|h t IH]; intros start; cbn [find_pivot].
+  - intros i. destruct i; destruct pc; reflexivity.
+  - destruct (fis0 K (nth pc h 0)) eqn:E.
+    + specialize (IH (S start)). destruct (find_pivot K pc (S start) t) as [p|].
+      * destruct IH as (H1 & H2 & H3). cbn [length]. repeat split; try lia.
+        replace (p - start)%nat with (S (p - S start)) by lia. exact H3.
+      * intros [|i]; cbn [nth]; auto. now apply fis0_true.
+    + cbn [length]. repeat split; try lia. rewrite Nat.sub_diag. cbn [nth]. now apply fis0_false.
+Qed.
+
+Lemma find_pivot_row_spec : forall pc pr (M : @matrix F),
+  match find_pivot_row K pc pr M with
+  | None => forall k, pr <= k -> entry K k pc M = 0
+  | Some p => pr <= p /\ p < length M /\ entry K p pc M <> 0
+  end.
+Proof.
+  intros pc pr M. unfold find_pivot_row. pose proof (find_pivot_spec pc (skipn pr M) pr) as H.
+  destruct (find_pivot K pc pr (skipn pr M)) as [p|].
+  - destruct H as (H1 & H2 & H3). rewrite skipn_length in H2. rewrite nth_skipn_add in H3.
+    replace (pr + (p - pr))%nat with p in H3 by lia.
+    repeat split; auto.
+    destruct (Nat.ltb p (length M)) eqn:E; [now apply Nat.ltb_lt in E|].
+    apply Nat.ltb_ge in E. lia.
+  - intros k Hk. specialize (H (k - pr)%nat). rewrite nth_skipn_add in H.
+    replace (pr + (k - pr))%nat with k in H by lia. exact H.
+Qed.
+
+(* ---- the Gauss–Jordan invariant ----------------------------------------------------------- *)
+
+Record gj_inv (r c pc : nat) (M : @matrix F) (pr : nat) (pivs : list nat) : Prop := mk_gj_inv {
+  gi_wf : wf_matrix r c M;
+  gi_len : pr = length pivs;
+  gi_le : pr <= r;
+  gi_lt : forall l, l < pr -> nth l pivs O < pc;
+  gi_unit : forall l k, l < pr -> entry K k (nth l pivs O) M = if Nat.eqb k l then 1 else 0;
+  gi_zero : forall k j, pr <= k -> j < pc -> entry K k j M = 0
+}.
+
+Lemma swap_idx_ge : forall a b k, a <= b -> a <= k -> a <= swap_idx a b k.
+Proof. intros. unfold swap_idx. destruct (Nat.eqb k a); [lia|]. destruct (Nat.eqb k b); lia. Qed.
+
+Lemma swap_idx_lt : forall a b k, a <= b -> k < a -> swap_idx a b k = k.
+Proof.
+  intros. unfold swap_idx.
+  destruct (Nat.eqb k a) eqn:E1; [apply Nat.eqb_eq in E1; lia|].
+  destruct (Nat.eqb k b) eqn:E2; [apply Nat.eqb_eq in E2; lia|]. reflexivity.
+Qed.
+
+(* the matrix after the (conditional) swap *)
+Definition gj_swapped (pr p : nat) (M : @matrix F) : matrix := if Nat.eqb p pr then M else swap_rows pr p M.
+
+Lemma entry_gj_swapped : forall (M : @matrix F) pr p k j, pr < length M -> p < length M ->
+  entry K k j (gj_swapped pr p M) = entry K (swap_idx pr p k) j M.
+Proof.
+  intros M pr p k j H1 H2. unfold gj_swapped. destruct (Nat.eqb p pr) eqn:E.
+  - apply Nat.eqb_eq in E; subst p. unfold swap_idx.
+    destruct (Nat.eqb k pr) eqn:E2; [apply Nat.eqb_eq in E2; subst; reflexivity|reflexivity].
+  - apply entry_swap_rows; auto.
+Qed.
+
+Lemma gj_inv_swapped : forall r c pc M pr pivs p, gj_inv r c pc M pr pivs -> pr <= p -> p < r ->
+  gj_inv r c pc (gj_swapped pr p M) pr pivs.
+Proof.
+  intros r c pc M pr pivs p [Hwf Hlen Hle Hlt Hunit Hzero] Hp Hpr. pose proof Hwf as [HL _].
+  assert (Hent : forall k j, entry K k j (gj_swapped pr p M) = entry K (swap_idx pr p k) j M)
+    by (intros; apply entry_gj_swapped; lia).
+  constructor; auto.
+  - unfold gj_swapped. destruct (Nat.eqb p pr); auto. apply wf_swap_rows; auto; lia.
+  - intros l k Hl. rewrite Hent, Hunit by auto.
+    destruct (Nat.ltb k pr) eqn:E.
+    + apply Nat.ltb_lt in E. rewrite swap_idx_lt by lia. reflexivity.
+    + apply Nat.ltb_ge in E. pose proof (swap_idx_ge pr p k Hp E).
+      replace (Nat.eqb (swap_idx pr p k) l) with false by (symmetry; apply Nat.eqb_neq; lia).
+      replace (Nat.eqb k l) with false by (symmetry; apply Nat.eqb_neq; lia). reflexivity.
+  - intros k j Hk Hj. rewrite Hent. apply Hzero; auto. apply swap_idx_ge; auto.
+Qed.
+
+Lemma ker_gj_swapped : forall (M : @matrix F) pr p v, pr < length M -> p < length M ->
+  (ker (gj_swapped pr p M) v <-> ker M v).
+Proof.
+  intros. unfold gj_swapped. destruct (Nat.eqb p pr); [tauto|]. apply ker_swap_rows; auto.
+Qed.
+
+Lemma finv_neq_0 : forall x, x <> 0 -> finv K x <> 0.
+Proof.
+  intros x Hx E. pose proof (finv_l x Hx) as H. rewrite E in H.
+  apply f1_neq_0. rewrite <- H. ring.
+Qed.
+
+(* scale the pivot row and clear the pivot column *)
+Lemma gj_inv_reduce : forall r c pc M pr pivs,
+  gj_inv r c pc M pr pivs -> pr < r -> entry K pr pc M <> 0 ->
+  gj_inv r c (S pc) (eliminate K pr pc (scale_row K pr (finv K (entry K pr pc M)) M)) (S pr) (pivs ++ [pc]).
+Proof.
+  intros r c pc M pr pivs [Hwf Hlen Hle Hlt Hunit Hzero] Hpr He.
+  set (x := finv K (entry K pr pc M)).
+  set (M2 := scale_row K pr x M).
+  assert (Hwf2 : wf_matrix r c M2) by (apply wf_scale_row; auto).
+  assert (E2 : forall k j, entry K k j M2 = if Nat.eqb k pr then entry K k j M * x else entry K k j M)
+    by (intros; apply entry_scale_row).
+  assert (Epiv : entry K pr pc M2 = 1).
+  { rewrite E2, Nat.eqb_refl. unfold x. rewrite <- (finv_l _ He). ring. }
+  assert (E3 : forall k j, k < r -> entry K k j (eliminate K pr pc M2) =
+             if Nat.eqb k pr then entry K k j M2 else entry K k j M2 - entry K k pc M2 * entry K pr j M2).
+  { intros k j Hk. unfold eliminate. rewrite (entry_eliminate_by r c) by auto.
+    rewrite nth_col. reflexivity. }
+  assert (Eov : forall k j, r <= k -> entry K k j (eliminate K pr pc M2) = 0).
+  { intros k j Hk. apply entry_overflow. unfold eliminate. rewrite eliminate_by_length.
+    destruct Hwf2 as [HL2 _]. lia. }
+  assert (Hnm : nth pr (pivs ++ [pc]) O = pc) by (rewrite Hlen; apply nth_middle).
+  constructor.
+  - unfold eliminate. apply wf_eliminate_by; auto.
+  - rewrite app_length. cbn [length]. lia.
+  - lia.
+  - intros l Hl. destruct (Nat.eqb l pr) eqn:E.
+    + apply Nat.eqb_eq in E; subst l. rewrite Hnm. lia.
+    + apply Nat.eqb_neq in E. rewrite app_nth1 by lia. assert (l < pr) by lia. specialize (Hlt l H). lia.
+  - intros l k Hl. destruct (Nat.ltb k r) eqn:Ek.
+    2:{ apply Nat.ltb_ge in Ek. rewrite Eov by auto.
+        replace (Nat.eqb k l) with false by (symmetry; apply Nat.eqb_neq; lia). reflexivity. }
+    apply Nat.ltb_lt in Ek. rewrite E3 by auto.
+    destruct (Nat.eqb l pr) eqn:E.
+    + apply Nat.eqb_eq in E; subst l. rewrite Hnm.
+      destruct (Nat.eqb k pr) eqn:Ek2.
+      * apply Nat.eqb_eq in Ek2; subst k. exact Epiv.
+      * rewrite Epiv. ring.
+    + apply Nat.eqb_neq in E. assert (Hl' : l < pr) by lia.
+      rewrite app_nth1 by lia.
+      assert (Hcol : forall k', entry K k' (nth l pivs O) M2 = if Nat.eqb k' l then 1 else 0).
+      { intros k'. rewrite E2, Hunit by auto. destruct (Nat.eqb k' pr) eqn:E4; auto.
+        apply Nat.eqb_eq in E4; subst k'.
+        replace (Nat.eqb pr l) with false by (symmetry; apply Nat.eqb_neq; lia). ring. }
+      rewrite !Hcol.
+      replace (Nat.eqb pr l) with false by (symmetry; apply Nat.eqb_neq; lia).
+      destruct (Nat.eqb k pr) eqn:Ek2.
+      * apply Nat.eqb_eq in Ek2; subst k.
+        replace (Nat.eqb pr l) with false by (symmetry; apply Nat.eqb_neq; lia). reflexivity.
+      * ring.
+  - intros k j Hk Hj. destruct (Nat.ltb k r) eqn:Ek.
+    2:{ apply Nat.ltb_ge in Ek. apply Eov; auto. }
+    apply Nat.ltb_lt in Ek. rewrite E3 by auto.
+    replace (Nat.eqb k pr) with false by (symmetry; apply Nat.eqb_neq; lia).
+    destruct (Nat.eqb j pc) eqn:Ej.
+    + apply Nat.eqb_eq in Ej; subst j. rewrite Epiv. ring.
+    + apply Nat.eqb_neq in Ej. assert (Hj' : j < pc) by lia.
+      rewrite !E2. replace (Nat.eqb k pr) with false by (symmetry; apply Nat.eqb_neq; lia).
+      rewrite Nat.eqb_refl. rewrite (Hzero k j) by lia. rewrite (Hzero pr j) by lia. ring.
+Qed.
+
+Lemma ker_gj_reduce : forall r c pc (M : @matrix F) pr v, wf_matrix r c M -> pr < r -> entry K pr pc M <> 0 ->
+  (ker (eliminate K pr pc (scale_row K pr (finv K (entry K pr pc M)) M)) v <-> ker M v).
+Proof.
+  intros r c pc M pr v Hwf Hpr He. unfold eliminate.
+  rewrite (ker_eliminate_by r c) by (auto using wf_scale_row).
+  apply ker_scale_row. now apply finv_neq_0.
+Qed.
+
+(* one iteration of the column loop *)
+Lemma gj_step_inv : forall r c pc st,
+  gj_inv r c pc (gj_M st) (gj_pr st) (gj_pivs st) -> gj_pr st < r ->
+  gj_inv r c (S pc) (gj_M (gj_step K pc st)) (gj_pr (gj_step K pc st)) (gj_pivs (gj_step K pc st))
+  /\ (forall v, ker (gj_M (gj_step K pc st)) v <-> ker (gj_M st) v).
+Proof.
+  intros r c pc [M pr pivs] Hinv Hpr. cbn [gj_M gj_pr gj_pivs] in *.
+  pose proof (gi_wf _ _ _ _ _ _ Hinv) as [HL HF].
+  unfold gj_step. cbn [gj_M gj_pr gj_pivs].
+  pose proof (find_pivot_row_spec pc pr M) as Hfp.
+  destruct (find_pivot_row K pc pr M) as [p|]; cbn [gj_M gj_pr gj_pivs].
+  - destruct Hfp as (Hp1 & Hp2 & Hp3).
+    fold (gj_swapped pr p M).
+    assert (Hinv1 : gj_inv r c pc (gj_swapped pr p M) pr pivs) by (apply gj_inv_swapped; auto; lia).
+    assert (He : entry K pr pc (gj_swapped pr p M) <> 0).
+    { rewrite entry_gj_swapped by lia. unfold swap_idx. rewrite Nat.eqb_refl. exact Hp3. }
+    split.
+    + apply gj_inv_reduce; auto.
+    + intros v. rewrite (ker_gj_reduce r c) by (auto; apply (gi_wf _ _ _ _ _ _ Hinv1)).
+      apply ker_gj_swapped; lia.
+  - split; [|tauto]. destruct Hinv as [Hwf Hlen Hle Hlt Hunit Hzero]. constructor; auto.
+    { intros l Hl. specialize (Hlt l Hl). lia. }
+    intros k j Hk Hj. destruct (Nat.eqb j pc) eqn:E.
+    + apply Nat.eqb_eq in E; subst j. apply Hfp; auto.
+    + apply Nat.eqb_neq in E. apply Hzero; auto. lia.
+Qed.
+
+Lemma gj_loop_inv : forall r c todo pc st,
+  gj_inv r c pc (gj_M st) (gj_pr st) (gj_pivs st) ->
+  let st' := gj_loop K todo pc st in
+  (exists pc', gj_inv r c pc' (gj_M st') (gj_pr st') (gj_pivs st') /\ pc' <= (pc + todo)%nat /\
+               (pc' = (pc + todo)%nat \/ gj_pr st' = r))
+  /\ (forall v, ker (gj_M st') v <-> ker (gj_M st) v).
+Proof.
+  intros r c todo; induction todo as [|t IH]; intros pc st Hinv; cbn [gj_loop].
+  - split; [|tauto]. exists pc. split; auto. split; [lia|]. left; lia.
+  - pose proof (gi_wf _ _ _ _ _ _ Hinv) as [HL _]. pose proof (gi_le _ _ _ _ _ _ Hinv) as Hle.
+    unfold nrows. rewrite HL.
+    destruct (Nat.ltb (gj_pr st) r) eqn:E.
+    + apply Nat.ltb_lt in E. destruct (gj_step_inv r c pc st Hinv E) as [Hinv' Hker'].
+      specialize (IH (S pc) _ Hinv'). cbv zeta in IH. destruct IH as [(pc' & H1 & H2 & H3) Hk].
+      split.
+      * exists pc'. split; auto. split; [lia|]. destruct H3; [left; lia|right; auto].
+      * intros v. rewrite Hk. apply Hker'.
+    + apply Nat.ltb_ge in E. split; [|tauto]. exists pc. split; auto. split; [lia|]. right. lia.
+Qed.
+
+
+(* ---- extraction of the solution -------------------------------------------------------------- *)
+
+Section Extract.
+Variables (n : nat) (M : @matrix F).
+Let fx := (fun (sol : list F) (ip : nat * nat) => upd (snd ip) (entry K (fst ip) n M) sol).
+
+Lemma extract_fold_length : forall ps sol0, length (fold_left fx ps sol0) = length sol0.
+Proof.
+  induction ps as [|[i c0] ps IH]; intros sol0; cbn [fold_left]; auto.
+  rewrite IH. unfold fx. apply upd_length.
+Qed.
+
+Lemma extract_fold_notin : forall ps sol0 j, ~ In j (map snd ps) ->
+  nth j (fold_left fx ps sol0) 0 = nth j sol0 0.
+Proof.
+  induction ps as [|[i c0] ps IH]; intros sol0 j Hn; cbn [fold_left]; auto.
+  cbn [map snd In] in Hn. rewrite IH by tauto. unfold fx. cbn [fst snd].
+  apply nth_upd_other. intro; subst; tauto.
+Qed.
+
+Lemma extract_fold_in : forall ps sol0 i j, NoDup (map snd ps) -> In (i, j) ps -> j < length sol0 ->
+  nth j (fold_left fx ps sol0) 0 = entry K i n M.
+Proof.
+  induction ps as [|[i0 c0] ps IH]; intros sol0 i j Hnd Hin Hj; cbn [fold_left]; [destruct Hin|].
+  cbn [map snd] in Hnd. inversion Hnd as [|? ? Hnotin Hnd']; subst.
+  destruct Hin as [Heq|Hin].
+  - inversion Heq; subst. rewrite extract_fold_notin by auto. unfold fx. cbn [fst snd].
+    apply nth_upd_same; auto.
+  - apply IH; auto. unfold fx. now rewrite upd_length.
+Qed.
+End Extract.
+
+Lemma zero_vec_length : forall n, length (zero_vec K n) = n.
+Proof. intros. apply repeat_length. Qed.
+
+Lemma nth_zero_vec : forall n j, nth j (zero_vec K n) 0 = 0.
+Proof. induction n as [|n IH]; intros [|j]; cbn [zero_vec repeat nth]; auto. Qed.
+
+Lemma map_snd_combine_seq : forall (l : list nat) s, map snd (combine (seq s (length l)) l) = l.
+Proof. induction l as [|h t IH]; intros s; cbn; f_equal; auto. Qed.
+
+Lemma in_combine_seq : forall (l : list nat) s i, i < length l -> In ((s + i)%nat, nth i l O) (combine (seq s (length l)) l).
+Proof.
+  induction l as [|h t IH]; intros s i Hi; cbn in Hi; [lia|].
+  cbn [length seq combine]. destruct i.
+  - left. rewrite Nat.add_0_r. reflexivity.
+  - right. replace (s + S i)%nat with (S s + i)%nat by lia. apply IH. lia.
+Qed.
+
+Lemma extract_solution_length : forall n M pivs, length (extract_solution K n M pivs) = n.
+Proof. intros. unfold extract_solution. rewrite extract_fold_length. apply zero_vec_length. Qed.
+
+Lemma extract_solution_pivot : forall n M pivs l, NoDup pivs -> l < length pivs -> nth l pivs O < n ->
+  nth (nth l pivs O) (extract_solution K n M pivs) 0 = entry K l n M.
+Proof.
+  intros n M pivs l Hnd Hl Hlt. unfold extract_solution.
+  apply extract_fold_in.
+  - now rewrite map_snd_combine_seq.
+  - apply (in_combine_seq pivs O l Hl).
+  - now rewrite zero_vec_length.
+Qed.
+
+Lemma extract_solution_free : forall n M pivs j, ~ In j pivs ->
+  nth j (extract_solution K n M pivs) 0 = 0.
+Proof.
+  intros n M pivs j Hn. unfold extract_solution.
+  rewrite extract_fold_notin by now rewrite map_snd_combine_seq. apply nth_zero_vec.
+Qed.
+
+(* ---- consistency scan ------------------------------------------------------------------------- *)
+
+Lemma scan_true_iff : forall n pr (M : @matrix F),
+  forallb (fun r => fis0 K (nth n r 0)) (skipn pr M) = true <-> (forall k, pr <= k -> entry K k n M = 0).
+Proof.
+  intros n pr M. rewrite forallb_forall. split.
+  - intros H k Hk. destruct (Nat.ltb k (length M)) eqn:E.
+    + apply Nat.ltb_lt in E. apply fis0_true. apply H.
+      replace (nth k M []) with (nth (k - pr) (skipn pr M) []).
+      * apply nth_In. rewrite skipn_length. lia.
+      * rewrite nth_skipn_add. f_equal. lia.
+    + apply Nat.ltb_ge in E. apply entry_overflow; auto.
+  - intros H x Hx. destruct (In_nth _ _ [] Hx) as [i [Hi Hnth]]. subst x.
+    rewrite nth_skipn_add. apply fis0_true. apply (H (pr + i)%nat). lia.
+Qed.
+
+Lemma list_split_last : forall (l : list F) n, length l = S n -> l = firstn n l ++ [nth n l 0].
+Proof.
+  induction l as [|h t IH]; intros n H; cbn in H; [lia|].
+  destruct n.
+  - destruct t; [reflexivity|cbn in H; lia].
+  - cbn [firstn nth app]. f_equal. apply IH. lia.
+Qed.
+
+Lemma nth_firstn_lt : forall (l : list F) n j, j < n -> nth j (firstn n l) 0 = nth j l 0.
+Proof.
+  induction l as [|h t IH]; intros n j H.
+  - rewrite firstn_nil. reflexivity.
+  - destruct n; [lia|]. destruct j; cbn [firstn nth]; auto. apply IH. lia.
+Qed.
+
+Lemma fopp_1_mul : forall e, e * fopp K 1 = 0 -> e = 0.
+Proof. intros e H. assert (e = fopp K (e * fopp K 1)) as -> by ring. rewrite H. ring. Qed.
+
+(* ---- solve_augmented: sound and complete ---------------------------------------------------------- *)
+
+Lemma gj_inv_init : forall r n (aug : @matrix F), wf_matrix r (S n) aug -> gj_inv r (S n) 0 aug 0 [].
+Proof. intros. constructor; auto; try lia; intros; lia. Qed.
+
+Lemma gj_inv_NoDup : forall r c pc M pr pivs, gj_inv r c pc M pr pivs -> NoDup pivs.
+Proof.
+  intros r c pc M pr pivs [Hwf Hlen Hle Hlt Hunit Hzero].
+  apply (NoDup_nth pivs O). intros i j Hi Hj E.
+  destruct (Nat.eq_dec i j) as [|Hne]; auto. exfalso.
+  pose proof (Hunit i i ltac:(lia)) as H1. pose proof (Hunit j i ltac:(lia)) as H2.
+  rewrite Nat.eqb_refl in H1. rewrite <- E in H2.
+  replace (Nat.eqb i j) with false in H2 by (symmetry; apply Nat.eqb_neq; lia).
+  apply f1_neq_0. rewrite <- H1, H2. reflexivity.
+Qed.
+
+Lemma ncols_wf : forall r c (M : @matrix F), wf_matrix r c M -> 0 < r -> ncols M = c.
+Proof.
+  intros r c [|h t] [HL HF] Hr; cbn in HL; [lia|]. cbn. now inversion HF.
+Qed.
+
+Theorem solve_augmented_sound : forall r n (aug : @matrix F) x,
+  wf_matrix r (S n) aug -> 0 < r -> solve_augmented K aug = Some x ->
+  length x = n /\ ker aug (x ++ [fopp K 1]).
+Proof.
+  intros r n aug x Hwf Hr Hsol. unfold solve_augmented in Hsol.
+  rewrite (ncols_wf r (S n) aug Hwf Hr) in Hsol. cbn [pred] in Hsol.
+  pose proof (gj_loop_inv r (S n) n 0 (mk_gj aug 0 []) (gj_inv_init r n aug Hwf)) as Hloop.
+  cbv zeta in Hloop. cbn [gj_M] in Hloop.
+  set (st := gj_loop K n 0 (mk_gj aug 0 [])) in *.
+  destruct Hloop as [(pc' & Hinv & Hpc & Hend) Hker].
+  destruct (forallb _ _) eqn:Hscan in Hsol; [|discriminate]. inversion Hsol; subst x; clear Hsol.
+  rewrite scan_true_iff in Hscan.
+  pose proof (gj_inv_NoDup _ _ _ _ _ _ Hinv) as Hnd.
+  destruct Hinv as [HwfM Hlen Hle Hlt Hunit Hzero].
+  set (M := gj_M st) in *. set (pr := gj_pr st) in *. set (pivs := gj_pivs st) in *.
+  set (x := extract_solution K n M pivs).
+  assert (Hxl : length x = n) by apply extract_solution_length.
+  split; auto. apply Hker. intros k.
+  destruct (Nat.ltb k r) eqn:Ek.
+  2:{ apply Nat.ltb_ge in Ek. rewrite row_overflow; [apply dot_nil_l|]. destruct HwfM; lia. }
+  apply Nat.ltb_lt in Ek.
+  assert (Hrl : length (row k M) = S n) by (eapply wf_row_length; eauto).
+  destruct (Nat.ltb k pr) eqn:Ekp.
+  - apply Nat.ltb_lt in Ekp.
+    rewrite (list_split_last (row k M) n Hrl).
+    rewrite dot_app by (rewrite firstn_length; lia).
+    rewrite dot_cons, dot_nil_l.
+    assert (Hpk : nth k pivs O < n) by (specialize (Hlt k Ekp); lia).
+    rewrite (dot_single _ _ (nth k pivs O)).
+    + rewrite nth_firstn_lt by auto. rewrite <- !entry_row.
+      rewrite Hunit, Nat.eqb_refl by auto.
+      unfold x. rewrite extract_solution_pivot by (auto; lia).
+      ring.
+    + intros j Hj. destruct (Nat.ltb j n) eqn:Ejn.
+      2:{ apply Nat.ltb_ge in Ejn. rewrite (nth_overflow x) by lia. ring. }
+      apply Nat.ltb_lt in Ejn. rewrite nth_firstn_lt by auto.
+      destruct (in_dec Nat.eq_dec j pivs) as [Hin|Hnin].
+      * destruct (In_nth _ _ O Hin) as [l [Hl Hjl]]. subst j.
+        rewrite <- entry_row. rewrite Hunit by lia.
+        replace (Nat.eqb k l) with false by (symmetry; apply Nat.eqb_neq; intro; subst l; apply Hj; reflexivity). ring.
+      * unfold x. rewrite extract_solution_free by auto. ring.
+  - apply Nat.ltb_ge in Ekp. destruct Hend as [Hend|Hend]; [|lia].
+    apply dot_all_zero. intros j. rewrite <- entry_row.
+    destruct (Nat.ltb j n) eqn:Ejn.
+    + apply Nat.ltb_lt in Ejn. rewrite Hzero by lia. ring.
+    + apply Nat.ltb_ge in Ejn. destruct (Nat.eq_dec j n) as [->|Hne].
+      * rewrite Hscan by auto. ring.
+      * rewrite entry_row. rewrite (nth_overflow (row k M)) by lia. ring.
+Qed.
+
+Theorem solve_augmented_complete : forall r n (aug : @matrix F) y,
+  wf_matrix r (S n) aug -> 0 < r -> length y = n -> ker aug (y ++ [fopp K 1]) ->
+  solve_augmented K aug <> None.
+Proof.
+  intros r n aug y Hwf Hr Hy Hk. unfold solve_augmented.
+  rewrite (ncols_wf r (S n) aug Hwf Hr). cbn [pred].
+  pose proof (gj_loop_inv r (S n) n 0 (mk_gj aug 0 []) (gj_inv_init r n aug Hwf)) as Hloop.
+  cbv zeta in Hloop. cbn [gj_M] in Hloop.
+  set (st := gj_loop K n 0 (mk_gj aug 0 [])) in *.
+  destruct Hloop as [(pc' & Hinv & Hpc & Hend) Hker].
+  destruct Hinv as [HwfM Hlen Hle Hlt Hunit Hzero].
+  replace (forallb _ _) with true; [discriminate|]. symmetry. apply scan_true_iff.
+  intros k Hkp. destruct (Nat.ltb k r) eqn:Ek.
+  2:{ apply Nat.ltb_ge in Ek. apply entry_overflow. destruct HwfM; lia. }
+  apply Nat.ltb_lt in Ek. destruct Hend as [Hend|Hend]; [|lia].
+  apply Hker in Hk. specialize (Hk k).
+  rewrite (dot_single _ _ n) in Hk.
+  - rewrite app_nth2, Hy, Nat.sub_diag in Hk by lia. cbn [nth] in Hk.
+    apply fopp_1_mul. exact Hk.
+  - intros j Hj. rewrite <- entry_row.
+    destruct (Nat.ltb j n) eqn:Ejn.
+    + apply Nat.ltb_lt in Ejn. rewrite Hzero by lia. ring.
+    + apply Nat.ltb_ge in Ejn. rewrite (nth_overflow (y ++ _)); [ring|].
+      rewrite app_length. cbn [length]. lia.
+Qed.
+
+
+(* ---- SolveRight / SolveLeft ------------------------------------------------------------------------ *)
+
+Lemma row_augment_col : forall (M : @matrix F) b k, k < length M -> length b = length M ->
+  row k (augment M (col_vector b)) = row k M ++ [nth k b 0].
+Proof.
+  induction M as [|h t IH]; intros b k Hk Hb; cbn in Hk; [lia|].
+  destruct b as [|b0 b]; cbn in Hb; [lia|].
+  destruct k; cbn [augment col_vector map combine fst snd row nth]; auto.
+  apply (IH b k); lia.
+Qed.
+
+Lemma augment_col_length : forall (M : @matrix F) b, length b = length M -> length (augment M (col_vector b)) = length M.
+Proof.
+  intros. unfold augment, col_vector. rewrite map_length, combine_length, map_length. lia.
+Qed.
+
+Lemma wf_augment_col : forall r c (M : @matrix F) b, wf_matrix r c M -> length b = r ->
+  wf_matrix r (S c) (augment M (col_vector b)).
+Proof.
+  intros r c M b Hwf Hb. pose proof Hwf as [HL HF]. split.
+  - rewrite augment_col_length; lia.
+  - apply Forall_forall. intros x Hx. destruct (In_nth _ _ [] Hx) as [k [Hk Hnth]].
+    rewrite augment_col_length in Hk by lia. fold (row k (augment M (col_vector b))) in Hnth.
+    rewrite row_augment_col in Hnth by lia. subst x.
+    rewrite app_length, (wf_row_length r c M k) by (auto; lia). cbn [length]. lia.
+Qed.
+
+Lemma mvec_length : forall (M : @matrix F) x, length (mvec K M x) = length M.
+Proof. intros. unfold mvec. apply map_length. Qed.
+
+Lemma nth_mvec : forall (M : @matrix F) x k, nth k (mvec K M x) 0 = dot K (row k M) x.
+Proof.
+  intros M x k. unfold mvec, row.
+  destruct (Nat.ltb k (length M)) eqn:E.
+  - apply Nat.ltb_lt in E. rewrite (nth_indep _ 0 (dot K [] x)) by (rewrite map_length; auto).
+    apply (map_nth (fun r => dot K r x)).
+  - apply Nat.ltb_ge in E. rewrite nth_overflow by (rewrite map_length; auto).
+    rewrite (nth_overflow M) by auto. reflexivity.
+Qed.
+
+Lemma ker_augment_iff : forall r c (M : @matrix F) b x, wf_matrix r c M -> length b = r -> length x = c ->
+  (ker (augment M (col_vector b)) (x ++ [fopp K 1]) <-> mvec K M x = b).
+Proof.
+  intros r c M b x Hwf Hb Hx. pose proof Hwf as [HL HF].
+  assert (Hrow : forall k, k < r -> dot K (row k (augment M (col_vector b))) (x ++ [fopp K 1])
+                                   = dot K (row k M) x - nth k b 0).
+  { intros k Hk. rewrite row_augment_col by lia.
+    rewrite dot_app by (rewrite (wf_row_length r c M k); auto; lia).
+    rewrite dot_cons, dot_nil_l. ring. }
+  split.
+  - intros H. apply (nth_ext_eq _ _ 0); [rewrite mvec_length; lia|].
+    intros k Hk. rewrite mvec_length in Hk. rewrite nth_mvec.
+    specialize (H k). rewrite Hrow in H by lia.
+    assert (dot K (row k M) x = (dot K (row k M) x - nth k b 0) + nth k b 0) as -> by ring.
+    rewrite H. ring.
+  - intros H k. destruct (Nat.ltb k r) eqn:E.
+    + apply Nat.ltb_lt in E. rewrite Hrow by auto. rewrite <- H, nth_mvec. ring.
+    + apply Nat.ltb_ge in E. rewrite row_overflow; [apply dot_nil_l|].
+      rewrite augment_col_length; lia.
+Qed.
+
+Theorem solve_right_sound : forall r c (M : @matrix F) b x,
+  wf_matrix r c M -> 0 < r -> 0 < c -> length b = r ->
+  solve_right K M b = Some x -> length x = c /\ mvec K M x = b.
+Proof.
+  intros r c M b x Hwf Hr Hc Hb Hs. unfold solve_right in Hs.
+  destruct (Nat.eqb _ _); [|discriminate].
+  destruct (solve_augmented_sound r c _ x (wf_augment_col r c M b Hwf Hb) Hr Hs) as [Hl Hk].
+  split; auto. now apply (ker_augment_iff r c M b x Hwf Hb Hl).
+Qed.
+
+Theorem solve_right_complete : forall r c (M : @matrix F) b y,
+  wf_matrix r c M -> 0 < r -> 0 < c -> length b = r -> length y = c ->
+  mvec K M y = b -> solve_right K M b <> None.
+Proof.
+  intros r c M b y Hwf Hr Hc Hb Hy Hm. unfold solve_right.
+  destruct Hwf as [HL HF]. unfold nrows. rewrite HL, Hb, Nat.eqb_refl.
+  apply (solve_augmented_complete r c _ y (wf_augment_col r c M b (conj HL HF) Hb) Hr Hy).
+  now apply (ker_augment_iff r c M b y (conj HL HF) Hb Hy).
+Qed.
+
+(* failure is reported exactly when no solution exists *)
+Corollary solve_right_none_iff : forall r c (M : @matrix F) b,
+  wf_matrix r c M -> 0 < r -> 0 < c -> length b = r ->
+  (solve_right K M b = None <-> ~ exists y, length y = c /\ mvec K M y = b).
+Proof.
+  intros r c M b Hwf Hr Hc Hb. split.
+  - intros Hn [y [Hy Hm]]. now apply (solve_right_complete r c M b y).
+  - intros Hne. destruct (solve_right K M b) as [x|] eqn:E; auto.
+    exfalso. apply Hne. exists x. now apply (solve_right_sound r c M b x).
+Qed.
+
+(* transpose *)
+Lemma transpose_length : forall (M : @matrix F), length (transpose K M) = ncols M.
+Proof. intros. unfold transpose. now rewrite map_length, seq_length. Qed.
+
+Lemma row_transpose : forall (M : @matrix F) j, j < ncols M -> row j (transpose K M) = col K j M.
+Proof.
+  intros M j Hj. unfold row, transpose.
+  rewrite (nth_indep _ [] (col K (nth j (seq 0 (ncols M)) O) M)) by now rewrite map_length, seq_length.
+  rewrite (map_nth (fun j => col K j M)). now rewrite seq_nth.
+Qed.
+
+Lemma wf_transpose : forall r c (M : @matrix F), wf_matrix r c M -> 0 < r -> wf_matrix c r (transpose K M).
+Proof.
+  intros r c M Hwf Hr. pose proof (ncols_wf r c M Hwf Hr) as Hnc. destruct Hwf as [HL HF]. split.
+  - now rewrite transpose_length.
+  - apply Forall_forall. intros x Hx. unfold transpose in Hx. apply in_map_iff in Hx.
+    destruct Hx as [j [<- _]]. now rewrite col_length.
+Qed.
+
+Lemma mvec_transpose : forall (M : @matrix F) x, mvec K (transpose K M) x = vecm K x M.
+Proof.
+  intros. unfold mvec, transpose, vecm. rewrite map_map. apply map_ext. intros. apply dot_comm.
+Qed.
+
+Theorem solve_left_sound : forall r c (M : @matrix F) rv x,
+  wf_matrix r c M -> 0 < r -> 0 < c -> length rv = c ->
+  solve_left K M rv = Some x -> length x = r /\ vecm K x M = rv.
+Proof.
+  intros r c M rv x Hwf Hr Hc Hrv Hs. unfold solve_left in Hs.
+  destruct (Nat.eqb _ _); [|discriminate].
+  pose proof (wf_transpose r c M Hwf Hr) as HwfT.
+  destruct (solve_augmented_sound c r _ x (wf_augment_col c r _ rv HwfT Hrv) Hc Hs) as [Hl Hk].
+  split; auto. rewrite <- mvec_transpose. now apply (ker_augment_iff c r _ rv x HwfT Hrv Hl).
+Qed.
+
+Theorem solve_left_complete : forall r c (M : @matrix F) rv y,
+  wf_matrix r c M -> 0 < r -> 0 < c -> length rv = c -> length y = r ->
+  vecm K y M = rv -> solve_left K M rv <> None.
+Proof.
+  intros r c M rv y Hwf Hr Hc Hrv Hy Hm. unfold solve_left.
+  rewrite (ncols_wf r c M Hwf Hr), Hrv, Nat.eqb_refl.
+  pose proof (wf_transpose r c M Hwf Hr) as HwfT.
+  apply (solve_augmented_complete c r _ y (wf_augment_col c r _ rv HwfT Hrv) Hc Hy).
+  apply (ker_augment_iff c r _ rv y HwfT Hrv Hy). now rewrite mvec_transpose.
+Qed.
+
+Corollary solve_left_none_iff : forall r c (M : @matrix F) rv,
+  wf_matrix r c M -> 0 < r -> 0 < c -> length rv = c ->
+  (solve_left K M rv = None <-> ~ exists y, length y = r /\ vecm K y M = rv).
+Proof.
+  intros r c M rv Hwf Hr Hc Hrv. split.
+  - intros Hn [y [Hy Hm]]. now apply (solve_left_complete r c M rv y).
+  - intros Hne. destruct (solve_left K M rv) as [x|] eqn:E; auto.
+    exfalso. apply Hne. exists x. now apply (solve_left_sound r c M rv x).
+Qed.
+
 End LinAlgProofs.
